@@ -18,6 +18,7 @@ use crate::util::{guard, hash64, hash_bytes, Ctx, Rng};
 use crate::walk::{self, Walker};
 
 pub fn run(ctx: &mut Ctx) {
+    if ctx.part.is_empty() || ctx.part == "subsets" { forty_mbit(ctx); }
     let part = ctx.part.clone();
     if part.is_empty() || part == "subsets" { subsets(ctx); }
     if part.is_empty() || part == "composites" { composites(ctx); }
@@ -35,6 +36,26 @@ fn load_bv(bytes: &[u8]) -> Result<BitVector, String> {
 }
 
 const ORDERS: [[usize; 3]; 6] = [[0, 1, 2], [0, 2, 1], [1, 0, 2], [1, 2, 0], [2, 0, 1], [2, 1, 0]];
+
+// One 40 Mbit vector written with rank support only (its samples alone are more than a mebibyte): loads, reports
+// exactly that subset, equals what was written, answers rank as before.
+fn forty_mbit(ctx: &mut Ctx) {
+    if cfg!(miri) || !ctx.mine(0) || !ctx.begin_case() { return; }
+    let mut rng = ctx.rng(0xC19_900);
+    let (bv, positions, want, ones) = crate::drivers::c06::forty_mbit(&mut rng, 625_000);
+    let bytes = ser(&bv);
+    match load_bv(&bytes) {
+        Ok(loaded) => {
+            ctx.expect_eq("supports.load.subset", || "supports_* after loading a 40 Mbit bitvector written with rank support only".to_string(), &guard(|| supports(&loaded)), &(true, false, false));
+            ctx.checks += 1;
+            if loaded != bv { ctx.violation("supports.load.ne", "a loaded 40 Mbit bitvector (rank support only) is not == to what was written".to_string()); }
+            ctx.expect_eq("supports.load.rank", || "rank at 3000 positions of the loaded 40 Mbit bitvector".to_string(), &guard(|| positions.iter().map(|&p| loaded.rank(p)).collect::<Vec<usize>>()), &want);
+        },
+        Err(e) => ctx.violation("supports.load", format!("loading a 40 Mbit bitvector written with rank support failed: {}", e)),
+    }
+    ctx.case(hash64(&[9, ones as u64]), true);
+    ctx.sample(|| format!("forty_mbit: 40 Mbit bitvector ({} ones) written with rank support only, loaded, compared", ones));
+}
 
 fn subsets(ctx: &mut Ctx) {
     let cases = ctx.size(24, 200);
